@@ -37,7 +37,6 @@ package fdo
 //@   props C04 C06 C01 C10(sweep)
 //@   sweep bounds,panic,nilmem
 //@   pure
-//@   requires @payload len(v.Entries) > 0 ==> v.Entries[len(v.Entries)-1].Payload != nil
 //@   ensures @last err == nil && len(v.Entries) > 0 ==> u(result0) == PubOf(u(v.Entries[len(v.Entries)-1].Payload.Val.PublicKey))
 //@   ensures @mfg err == nil && len(v.Entries) == 0 ==> u(result0) == PubOf(u(v.Header.Val.ManufacturerKey))
 
